@@ -33,6 +33,8 @@ pub struct StoreSpec {
     pub fail_get: Option<(u64, bool)>,
     /// latency of the k-th multipart part is `part_latency_ms[k % len]` (out-of-order completion)
     pub part_latency_ms: Vec<u64>,
+    /// the n-th write-side request fails: "put", "part" or "complete" (0-based per kind)
+    pub fail_write: Option<(String, u64)>,
 }
 
 impl StoreSpec {
@@ -47,6 +49,10 @@ impl StoreSpec {
             latency_ms: v.get("latency_ms")?.as_u64()?.min(10_000),
             fail_get,
             part_latency_ms: v.get("part_latency_ms").and_then(|a| a.as_array()).map(|a| a.iter().filter_map(|x| x.as_u64()).collect()).unwrap_or_default(),
+            fail_write: match v.get("fail_write") {
+                None | Some(serde_json::Value::Null) => None,
+                Some(f) => Some((f.get("kind")?.as_str()?.to_string(), f.get("nth")?.as_u64()?)),
+            },
         })
     }
 }
@@ -59,6 +65,8 @@ pub struct StoreStats {
     pub get_errors: AtomicU64,
     pub puts: AtomicU64,
     pub parts: AtomicU64,
+    pub completes: AtomicU64,
+    pub write_errors: AtomicU64,
     pub lists: AtomicU64,
 }
 
@@ -131,14 +139,25 @@ impl Stream for ChunkedBody {
 #[async_trait]
 impl ObjectStore for SimObjectStore {
     async fn put_opts(&self, location: &Path, payload: PutPayload, opts: PutOptions) -> Result<PutResult> {
-        self.stats.puts.fetch_add(1, Ordering::Relaxed);
+        let n = self.stats.puts.fetch_add(1, Ordering::Relaxed);
         self.latency().await;
+        if matches!(&self.spec.fail_write, Some((k, nth)) if k == "put" && *nth == n) {
+            self.stats.write_errors.fetch_add(1, Ordering::Relaxed);
+            sim::probe("fault.object_store_put");
+            return Err(object_store::Error::Generic { store: "sim", source: "simulated PUT failure".into() });
+        }
         self.inner.put_opts(location, payload, opts).await
     }
     async fn put_multipart_opts(&self, location: &Path, opts: PutMultipartOptions) -> Result<Box<dyn MultipartUpload>> {
         self.latency().await;
         let inner = self.inner.put_multipart_opts(location, opts).await?;
-        Ok(Box::new(SimUpload { inner, n: 0, latencies: self.spec.part_latency_ms.clone(), stats: Arc::clone(&self.stats) }))
+        Ok(Box::new(SimUpload {
+            inner,
+            n: 0,
+            latencies: self.spec.part_latency_ms.clone(),
+            stats: Arc::clone(&self.stats),
+            fail: self.spec.fail_write.clone(),
+        }))
     }
     async fn get_opts(&self, location: &Path, options: GetOptions) -> Result<GetResult> {
         let n = self.stats.gets.fetch_add(1, Ordering::Relaxed);
@@ -198,6 +217,7 @@ struct SimUpload {
     n: usize,
     latencies: Vec<u64>,
     stats: Arc<StoreStats>,
+    fail: Option<(String, u64)>,
 }
 
 #[async_trait]
@@ -206,8 +226,15 @@ impl MultipartUpload for SimUpload {
         let fut = self.inner.put_part(data);
         let ms = if self.latencies.is_empty() { 0 } else { self.latencies[self.n % self.latencies.len()] };
         self.n += 1;
-        self.stats.parts.fetch_add(1, Ordering::Relaxed);
+        let k = self.stats.parts.fetch_add(1, Ordering::Relaxed);
+        let fail = matches!(&self.fail, Some((kind, nth)) if kind == "part" && *nth == k);
+        let stats = Arc::clone(&self.stats);
         Box::pin(async move {
+            if fail {
+                stats.write_errors.fetch_add(1, Ordering::Relaxed);
+                sim::probe("fault.object_store_part");
+                return Err(object_store::Error::Generic { store: "sim", source: "simulated multipart part failure".into() });
+            }
             if ms > 0 {
                 // parts complete out of order: each has its own (virtual) latency
                 tokio::time::sleep(Duration::from_millis(ms)).await;
@@ -216,6 +243,12 @@ impl MultipartUpload for SimUpload {
         })
     }
     async fn complete(&mut self) -> Result<PutResult> {
+        let k = self.stats.completes.fetch_add(1, Ordering::Relaxed);
+        if matches!(&self.fail, Some((kind, nth)) if kind == "complete" && *nth == k) {
+            self.stats.write_errors.fetch_add(1, Ordering::Relaxed);
+            sim::probe("fault.object_store_complete");
+            return Err(object_store::Error::Generic { store: "sim", source: "simulated failure completing a multipart upload".into() });
+        }
         self.inner.complete().await
     }
     async fn abort(&mut self) -> Result<()> {
